@@ -11,7 +11,7 @@ EXPLANATION = ('Each propagator is run once on a fully symbolic complex input; i
                'itself an obligation).  Energy conservation for every input is the operator identity A^H A = I, mutual inverses are '
                'B A = I, composition is A(z1) A(z2) = A(z1+z2): all are identities between sums of roots of unity and symbolic '
                'phasors (wavelength, sample spacing and distances are symbols), decided exactly.')
-BOUNDS = {'quick': 'focus/unfocus: shapes [1..4]^2 x Q in {1,2,3} (padded size <= 36 samples); mdft/czt band-complete pairs (m,n)->(M,N) with m,n in 1..3, M in {m,m+1,2m}; angular spectrum shapes [1..3]^2, Q in {1,2}',
+BOUNDS = {'quick': 'focus/unfocus: shapes [1..4]^2 x Q in {1,2,3} (padded size <= 36 samples); mdft/czt band-complete pairs (m,n)->(M,N) with m,n in 1..3, M in {m,m+1,2m}; angular spectrum shapes [1..3]^2, Q in {1,2}; thorough adds angular-spectrum arrays of length 13 (a non-fast FFT length), distances up to +-3e5 mm',
           'thorough': 'focus/unfocus shapes [1..6]^2 (padded size <= 100); mdft/czt m,n in 1..4; angular spectrum [1..4]^2'}
 OUTSIDE = 'float rounding; the tf= pass-through argument of angular_spectrum; shapes beyond the bound'
 NDERIVED = 16
